@@ -759,6 +759,47 @@ def _cyclic_facets(model, rep):
                                  "array")
 
 
+def _points_versus_vertices(model, rep):
+    """The point array holds the vertices, then the mid-side / interior
+    nodes of second-order meshes (reached through dofs.element_dofs, not
+    through t), then possibly unused points.  A complement of 'the vertices
+    in t' within 'all stored points' therefore calls every mid-side node an
+    orphan: Mesh.is_valid() returned False for every second-order mesh.
+    Every np.setdiff1d(np.arange(<stored points>), np.unique(<table>)) under
+    skfem/mesh must take the table of *all* nodes of the cells."""
+    R4 = "C11-R4"
+    n = 0
+    for fn in model.all_functions():
+        if not fn.path.startswith("skfem/mesh/"):
+            continue
+        for c in ast.walk(fn.node):
+            if not (isinstance(c, ast.Call) and src(c.func) in (
+                    "np.setdiff1d", "numpy.setdiff1d") and len(c.args) == 2):
+                continue
+            a, b = c.args
+            if not (isinstance(a, ast.Call) and src(a.func) == "np.arange"
+                    and a.args and any(t in src(a.args[-1]) for t in (
+                        "p.shape[1]", "doflocs.shape[1]"))):
+                continue
+            n += 1
+            inner = b.args[0] if isinstance(b, ast.Call) and src(
+                b.func) == "np.unique" and b.args else b
+            cons = f"{fn.short()}:points-versus-vertices"
+            if src(inner) in ("self.t", "t"):
+                rep.fail(R4, fn.path, fn.short(), cons,
+                         f"'{src(c)[:70]}' subtracts the vertices named in "
+                         f"t from all stored points: the mid-side nodes of "
+                         f"every second-order mesh count as points 'not "
+                         f"belonging to any element' (MeshTri2().is_valid() "
+                         f"is False)", c.lineno)
+            else:
+                rep.ok(R4, cons, f"complement taken against "
+                                 f"{src(inner)[:40]}")
+    if n < 1:
+        raise AnalysisError("no complement within the stored points found "
+                            "(Mesh.is_valid confirmed by hand)")
+
+
 def _complements(model, rep):
     """interior_* = complement of boundary_* in the full index range:
     symbolic run with counting stubs."""
@@ -1088,6 +1129,7 @@ def run(model: Model, rep, tier: str) -> None:
            lambda: _cyclic_enumeration(model, rep))
     _sentinel(model, rep, sentinel)
     _complements(model, rep)
+    _points_versus_vertices(model, rep)
     _padded_facets(model, rep)
     _cyclic_facets(model, rep)
     rep.require_min("C11-R1", 7)
@@ -1097,6 +1139,10 @@ def run(model: Model, rep, tier: str) -> None:
 
 _R = "skfem/refdom.py"
 MUTANTS = [
+    ("validation looks for unused points among the vertices of t",
+     ("skfem/mesh/mesh.py",
+      "                            np.unique(self.dofs.element_dofs))) > 0:",
+      "                            np.unique(self.t))) > 0:"), "C11-R4"),
     ("wedge facets stored sorted again",
      ("skfem/mesh/mesh_wedge_1.py",
       "            self.elem.refdom.facets,\n            sort=False,\n",
